@@ -120,8 +120,12 @@ class TComp(fm.TimeComponent):
         push = {f"o{o}": self.value() + 0.0 * o for o in range(nall)}
         if self.spec.get("pap") and self.spec.get("initpull"):
             # "publish after pull": the initial data is provided only once every initial pull succeeded
-            if not all(v is not None for v in self.connector.in_data.values()):
+            # the SDK's own test for "every initial pull is done" (as CallbackComponent and WeightedSum use it); a component
+            # of this kind computes its initial data FROM what it pulled
+            if not self.connector.all_data_pulled:
                 push = {}
+            else:
+                self.init_sum = sum(fin.scalar_of(v) for v in self.connector.in_data.values())
         self.try_connect(start_time, push_infos=infos, push_data=push)
 
     def _validate(self):
